@@ -32,10 +32,11 @@ VARIABLES edges,   \* sequence of [pre, post, ty]
           recs,    \* sequence of <<"v", row>> | <<"s", edge>> | <<"i", edge>>
           stim,    \* sequence of <<row, input id>>
           ecl,     \* sequence of <<edge, input id>>: clamps of the synaptic state
+          tr,      \* trainable weights: sequence of [groups |-> set of edge sets sharing one value, val]
           nin, nedit, obs
-nvars == <<edges, w, s0, recs, stim, ecl, nin, nedit, obs>>
+nvars == <<edges, w, s0, recs, stim, ecl, tr, nin, nedit, obs>>
 
-Init == edges = <<>> /\ w = <<>> /\ s0 = <<>> /\ recs = <<>> /\ stim = <<>> /\ ecl = <<>> /\ nin = 0 /\ nedit = 0 /\ obs = <<>>
+Init == edges = <<>> /\ w = <<>> /\ s0 = <<>> /\ recs = <<>> /\ stim = <<>> /\ ecl = <<>> /\ tr = <<>> /\ nin = 0 /\ nedit = 0 /\ obs = <<>>
 
 NE == Len(edges)
 E == 1..NE                                  \* edge e has global index e - 1
@@ -61,23 +62,23 @@ Connect(pre, post, ty) ==
   /\ Wiring /\ NE < MaxEdges
   /\ edges' = Append(edges, [pre |-> pre, post |-> post, ty |-> ty])
   /\ w' = Append(w, 1) /\ s0' = Append(s0, 0)
-  /\ UNCHANGED <<recs, stim, ecl, nin, nedit, obs>>
+  /\ UNCHANGED <<recs, stim, ecl, nin, nedit, obs, tr>>
 \* <edge view>.set("<ty>_w", x)
 SetW(x, ev) ==
   /\ Editing /\ ViewEdges(ev) # {}
   /\ w' = [e \in E |-> IF e \in ViewEdges(ev) THEN x ELSE w[e]]
-  /\ nedit' = nedit + 1 /\ UNCHANGED <<edges, s0, recs, stim, ecl, nin, obs>>
+  /\ nedit' = nedit + 1 /\ UNCHANGED <<edges, s0, recs, stim, ecl, nin, obs, tr>>
 \* <edge view>.set("<ty>_s", x): initial synaptic state
 SetS(x, ev) ==
   /\ Editing /\ ViewEdges(ev) # {}
   /\ s0' = [e \in E |-> IF e \in ViewEdges(ev) THEN x ELSE s0[e]]
-  /\ nedit' = nedit + 1 /\ UNCHANGED <<edges, w, recs, stim, ecl, nin, obs>>
+  /\ nedit' = nedit + 1 /\ UNCHANGED <<edges, w, recs, stim, ecl, nin, obs, tr>>
 \* <edge view>.record("<ty>_s") / record("i_<ty>")
 RecordE(what, ev) ==
   LET new == SelectSeq([i \in 1..Cardinality(ViewEdges(ev)) |-> <<what, SeqOfSet(ViewEdges(ev))[i]>>], LAMBDA p : p \notin Range(recs))
   IN /\ Editing /\ ViewEdges(ev) # {}
      /\ recs' = recs \o new
-     /\ nedit' = nedit + 1 /\ UNCHANGED <<edges, w, s0, stim, ecl, nin, obs>>
+     /\ nedit' = nedit + 1 /\ UNCHANGED <<edges, w, s0, stim, ecl, nin, obs, tr>>
 \* <view>.delete_recordings(): the recordings of the synapses IN THE VIEW go (for a node selection: both ends inside it),
 \* every other recording stays - in particular that of a synapse whose index happens to equal a compartment index in view
 AllViewEdges(ev) == IF ev.kind = "rows" THEN {e \in E : edges[e].pre \in RowSets[ev.k] /\ edges[e].post \in RowSets[ev.k]} ELSE ViewEdges(ev)
@@ -85,18 +86,38 @@ DelRecE(ev) ==
   /\ Editing /\ recs # <<>>
   /\ (ev.kind = "rows" \/ ViewEdges(ev) # {})            \* a type view exists only if the network has a synapse of that type
   /\ recs' = SelectSeq(recs, LAMBDA p : p[2] \notin AllViewEdges(ev))
-  /\ nedit' = nedit + 1 /\ UNCHANGED <<edges, w, s0, stim, ecl, nin, obs>>
+  /\ nedit' = nedit + 1 /\ UNCHANGED <<edges, w, s0, stim, ecl, nin, obs, tr>>
+\* <type view>.make_trainable("<ty>_w", x)            : ONE value shared by all synapses of the view
+\* <type view>.edge("all").make_trainable("<ty>_w", x) : one value per synapse
+\* What is simulated is the table weight overridden by the trainables in the order they were made (EffW below).
+TrainW(x, ev, each) ==
+  /\ Editing /\ ev.kind # "rows" /\ ViewEdges(ev) # {} /\ Len(tr) < 2
+  /\ tr' = Append(tr, [groups |-> IF each THEN {{e} : e \in ViewEdges(ev)} ELSE {ViewEdges(ev)}, val |-> x])
+  /\ nedit' = nedit + 1 /\ UNCHANGED <<edges, w, s0, recs, stim, ecl, nin, obs>>
+\* <view>.delete_trainables(): every sharing group loses the synapses of the view; emptied groups and trainables disappear
+DelTrainE(ev) ==
+  LET V == AllViewEdges(ev)
+      cut(q) == [q EXCEPT !.groups = {G \ V : G \in q.groups} \ {{}}]
+      RECURSIVE go(_)
+      go(q) == IF q = <<>> THEN <<>> ELSE (IF cut(Head(q)).groups = {} THEN <<>> ELSE <<cut(Head(q))>>) \o go(Tail(q))
+  IN /\ Editing /\ tr # <<>> /\ (ev.kind = "rows" \/ ViewEdges(ev) # {})
+     /\ tr' = go(tr)
+     /\ nedit' = nedit + 1 /\ UNCHANGED <<edges, w, s0, recs, stim, ecl, nin, obs>>
+RECURSIVE ApplyTr(_, _)
+ApplyTr(vec, i) == IF i > Len(tr) THEN vec
+                   ELSE ApplyTr([e \in E |-> IF e \in UNION tr[i].groups THEN tr[i].val ELSE vec[e]], i + 1)
+EffW == ApplyTr(w, 1)
 \* <edge view>.clamp("<ty>_s", series)
 ClampE(ev) ==
   /\ Editing /\ ViewEdges(ev) # {}
   /\ nin' = nin + 1
   /\ ecl' = ecl \o [i \in 1..Cardinality(ViewEdges(ev)) |-> <<SeqOfSet(ViewEdges(ev))[i], nin + 1>>]
-  /\ nedit' = nedit + 1 /\ UNCHANGED <<edges, w, s0, recs, stim, obs>>
+  /\ nedit' = nedit + 1 /\ UNCHANGED <<edges, w, s0, recs, stim, obs, tr>>
 \* net.select(nodes=[row]).stimulate(series)
 Stim(row) ==
   /\ Editing
   /\ nin' = nin + 1 /\ stim' = Append(stim, <<row, nin + 1>>)
-  /\ nedit' = nedit + 1 /\ UNCHANGED <<edges, w, s0, recs, ecl, obs>>
+  /\ nedit' = nedit + 1 /\ UNCHANGED <<edges, w, s0, recs, ecl, obs, tr>>
 
 (* ------------------------------ simulation ------------------------------ *)
 StimAmp(j, k) == 10 * j + k
@@ -107,10 +128,10 @@ StimAt(k, r) == SumSeq([i \in DOMAIN stim |-> IF stim[i][1] = r THEN StimAmp(sti
 RECURSIVE ApplyClamps(_, _, _)
 ApplyClamps(k, vec, i) == IF i > Len(ecl) THEN vec
                           ELSE ApplyClamps(k, [vec EXCEPT ![ecl[i][1]] = ClampVal(ecl[i][2], k)], i + 1)
-Sim0 == [v |-> [r \in Rows |-> r + 1], s |-> s0, cur |-> [e \in E |-> w[e] * s0[e]]]
+Sim0 == [v |-> [r \in Rows |-> r + 1], s |-> s0, cur |-> [e \in E |-> EffW[e] * s0[e]]]
 SimStep(S, k) ==
   LET s1 == [e \in E |-> IF edges[e].ty = "P" THEN S.v[edges[e].pre] ELSE S.s[e] + 1]      \* from the OLD voltages
-      cur == [e \in E |-> w[e] * s1[e]]                                                      \* currents use the updated state
+      cur == [e \in E |-> EffW[e] * s1[e]]                                                      \* currents use the updated state
       s2 == ApplyClamps(k, s1, 1)                                                             \* then the clamps
       v1 == [r \in Rows |-> S.v[r] + K[r + 1] * (StimAt(k, r) + SumSeq([e \in E |-> IF edges[e].post = r THEN cur[e] ELSE 0]))]
   IN [v |-> v1, s |-> s2, cur |-> cur]
@@ -119,7 +140,7 @@ SimRun(S, k) == IF k > T THEN <<S>> ELSE <<S>> \o SimRun(SimStep(S, k), k + 1)
 Read(S, p) == CASE p[1] = "v" -> S.v[p[2]] [] p[1] = "s" -> S.s[p[2]] [] p[1] = "i" -> S.cur[p[2]]
 AllRecs == [r \in 1..NRows |-> <<"v", r - 1>>] \o recs          \* the harness always records v of every compartment first
 Obs == LET run == SimRun(Sim0, 1) IN [i \in DOMAIN AllRecs |-> [c \in 1..(T + 1) |-> Read(run[c], AllRecs[i])]]
-Integrate == /\ obs = <<>> /\ NE > 0 /\ obs' = Obs /\ UNCHANGED <<edges, w, s0, recs, stim, ecl, nin, nedit>>
+Integrate == /\ obs = <<>> /\ NE > 0 /\ obs' = Obs /\ UNCHANGED <<edges, w, s0, recs, stim, ecl, nin, nedit, tr>>
 
 (* ------------------------------ properties ------------------------------ *)
 \* C09: results do not depend on the order in which synapses were created (reversal of the creation order)
@@ -132,12 +153,18 @@ VoltagesOf(ed, ww, ss) ==
                  v1 == [r \in Rows |-> v[r] + K[r + 1] * SumSeq([e \in DOMAIN ed |-> IF ed[e].post = r THEN ww[e] * s1[e] ELSE 0])]
              IN run(v1, s1, k + 1)
   IN run([r \in Rows |-> r + 1], ss, 1)
-CreationOrderIrrelevant == (ecl = <<>> /\ stim = <<>>) => VoltagesOf(edges, w, s0) = VoltagesOf(Rev(edges), Rev(w), Rev(s0))
+CreationOrderIrrelevant == (ecl = <<>> /\ stim = <<>> /\ tr = <<>>) => VoltagesOf(edges, w, s0) = VoltagesOf(Rev(edges), Rev(w), Rev(s0))
 \* C09: synapses with zero weight leave every compartment as if simulated alone
-ZeroWeightIsIsolation == ((\A e \in E : w[e] = 0) /\ stim = <<>>) => VoltagesOf(edges, w, s0) = [r \in Rows |-> r + 1]
+ZeroWeightIsIsolation == ((\A e \in E : w[e] = 0) /\ stim = <<>> /\ tr = <<>>) => VoltagesOf(edges, w, s0) = [r \in Rows |-> r + 1]
 \* C09: a compartment without incoming synapse and without stimulus keeps its voltage
 OnlyPostCompartmentsMove ==
-  stim = <<>> => \A r \in Rows : (\A e \in E : edges[e].post # r) => VoltagesOf(edges, w, s0)[r] = r + 1
+  (stim = <<>> /\ tr = <<>>) => \A r \in Rows : (\A e \in E : edges[e].post # r) => VoltagesOf(edges, w, s0)[r] = r + 1
+\* a trainable reaches all and only the synapses of its groups, later trainables first (C10 for synaptic parameters)
+TrainablesReachTheirSynapses ==
+  \A i \in DOMAIN tr : \A G \in tr[i].groups : \A e \in G :
+     (\A j \in (i + 1)..Len(tr) : e \notin UNION tr[j].groups) => EffW[e] = tr[i].val
+UntrainedSynapsesKeepTheirTableWeight == \A e \in E : (\A i \in DOMAIN tr : e \notin UNION tr[i].groups) => EffW[e] = w[e]
 RefsExist == /\ \A i \in DOMAIN recs : recs[i][2] \in E
+             /\ \A i \in DOMAIN tr : \A G \in tr[i].groups : G # {} /\ G \subseteq E
              /\ \A i \in DOMAIN ecl : ecl[i][1] \in E
 =============================================================================
